@@ -322,6 +322,11 @@ func (s *JointFeldmanState) ForceDisqualify(participant int) error {
 		return dkgInvalidStateTransitionErrorf("dkg is not running")
 	}
 	// disqualify the participant in the fvss instance where they are a dealer
+	if participant >= s.Size() || participant < 0 {
+		return invalidInputsErrorf(
+			"invalid origin input, should be less than %d, got %d",
+			s.Size(), participant)
+	}
 	err := s.fvss[participant].ForceDisqualify(participant)
 	if err != nil {
 		return fmt.Errorf("force disqualify failed: %w", err)
